@@ -15,8 +15,8 @@ ASSUMPTIONS = ["augmentation off for the determinism / label-equality checks (sc
                "frames that contain user instances are filtered to them (user_instances_only=True); frames with only predicted instances are not generated",
                "purity is asserted for tensor / ndarray arguments (and one level into dict examples)"]
 SHARDS = {"quick": 8, "thorough": 16}
-N = {"quick": 480, "thorough": 24000}
-BUDGET = {"quick": 110, "thorough": 1500}
+N = {"quick": 480, "thorough": 120000}
+BUDGET = {"quick": 110, "thorough": 600}
 TIMEOUT = {"quick": 700, "thorough": 3000}
 SELF_SHARDED = True
 PURE = [("sleap_nn.data.instance_centroids", "generate_centroids"), ("sleap_nn.data.instance_cropping", "generate_crops"), ("sleap_nn.data.instance_cropping", "make_centered_bboxes"),
